@@ -51,8 +51,8 @@ func checkC04(c *Ctx) {
 		w := c.Method(CorePath, "ioCore", "Write")
 		if c.Anchor("R4.1", "zapcore.ioCore.Write", w != nil) {
 			ok, others := ioCoreWriteShape(c, w)
-			c.Check(ok, "R4.1", w.String(), "one-whole-line-write", w.Pos(), "each accepted entry causes exactly one c.out.Write of the complete encoded line (buf.Bytes() of EncodeEntry's buffer), and the buffer goes back to the pool once, only after that call returned")
-			c.Check(len(others) == 0, "R4.1", w.String(), "only-writer", w.Pos(), "no other ioCore method writes to the sink (%v)", others)
+			c.Check(ok, "R4.1", FStr(w), "one-whole-line-write", w.Pos(), "each accepted entry causes exactly one c.out.Write of the complete encoded line (buf.Bytes() of EncodeEntry's buffer), and the buffer goes back to the pool once, only after that call returned")
+			c.Check(len(others) == 0, "R4.1", FStr(w), "only-writer", w.Pos(), "no other ioCore method writes to the sink (%v)", others)
 		}
 	}
 	// R4.3
@@ -106,7 +106,7 @@ func checkC04(c *Ctx) {
 			},
 		})
 		ok = ok && seen > 0
-		c.Check(ok, "R4.4", nw.String(), "locks-stderr", nw.Pos(), "the default error output is zapcore.Lock(os.Stderr)")
+		c.Check(ok, "R4.4", FStr(nw), "locks-stderr", nw.Pos(), "the default error output is zapcore.Lock(os.Stderr)")
 	}
 	lk := c.Func(CorePath, "Lock")
 	if c.Anchor("R4.4", "zapcore.Lock", lk != nil) {
@@ -119,7 +119,7 @@ func checkC04(c *Ctx) {
 				}
 			})
 		}
-		c.Check(ok, "R4.4", lk.String(), "wraps", lk.Pos(), "Lock returns a *lockedWriteSyncer around its argument")
+		c.Check(ok, "R4.4", FStr(lk), "wraps", lk.Pos(), "Lock returns a *lockedWriteSyncer around its argument")
 	}
 	// R4.5
 	c9EncoderPurity(c, "R4.5")
@@ -138,13 +138,13 @@ func checkC04(c *Ctx) {
 		}
 		tt := t
 		ok, why, inner, _ := VisitsAll(fn, func(cl ssa.CallInstruction) bool {
-			return IsCallTo(cl, tt.inner, "(go.uber.org/zap/zapcore.WriteSyncer).Write") && cl.Common().IsInvoke() && cl.Common().Method.Name() == tt.m
+			return IsCallTo(cl, tt.inner, "(go.uber.org/zap/zapcore.WriteSyncer).Write") && cl.Common().IsInvoke() && FNm(cl.Common().Method) == tt.m
 		}, fn.Params[0])
 		pos := fn.Pos()
 		if inner != nil {
 			pos = inner.Pos()
 		}
-		c.Check(ok, "R4.6", fn.String(), "visits-all", pos, "%s reaches every branch of %s (loop over the whole collection, no early exit) %s", t.m, PN(fn.Params[0]), why)
+		c.Check(ok, "R4.6", FStr(fn), "visits-all", pos, "%s reaches every branch of %s (loop over the whole collection, no early exit) %s", t.m, PN(fn.Params[0]), why)
 	}
 	// R4.7
 	{
@@ -155,7 +155,7 @@ func checkC04(c *Ctx) {
 		allowed := "(*go.uber.org/zap/zapcore.BufferedWriteSyncer).initialize"
 		if bws := c.Named(CorePath, "BufferedWriteSyncer"); bws != nil {
 			if roles, ok := discoverBWS(c, bws); ok {
-				allowed = roles.initFn.String()
+				allowed = FStr(roles.initFn)
 			}
 		}
 		sawAllowed := false
@@ -167,7 +167,7 @@ func checkC04(c *Ctx) {
 			AllInstrs(fn, func(i ssa.Instruction) {
 				switch i.(type) {
 				case *ssa.Go:
-					if fn.String() == allowed {
+					if FStr(fn) == allowed {
 						sawAllowed = true
 						return
 					}
@@ -245,10 +245,10 @@ func ioCoreWriteShape(c *Ctx, w *ssa.Function) (bool, []string) {
 	}
 	var others []string
 	for _, fn := range c.RootFuncs() {
-		if rn := RecvNamed(fn); rn != nil && rn.Obj().Name() == "ioCore" && !region[fn] {
+		if rn := RecvNamed(fn); rn != nil && FNm(rn.Obj()) == "ioCore" && !region[fn] {
 			for _, cl := range Calls(fn) {
 				if IsCallTo(cl, "(io.Writer).Write", "(go.uber.org/zap/zapcore.WriteSyncer).Write") {
-					others = append(others, fn.Name())
+					others = append(others, FNm(fn))
 				}
 			}
 		}
@@ -313,7 +313,7 @@ func c4LocksCombined(c *Ctx, rule string) {
 				bad = append(bad, sq)
 			}
 		}
-		c.Check(!trunc && len(seqs) > 0 && len(bad) == 0, rule, cw.String(), "locks-combined/"+itoa(int(n)), cw.Pos(), "with %d writer(s) every path returns zapcore.Lock(zapcore.NewMultiWriteSyncer(writers...)): one mutex around the whole group (offending: %v)", n, bad)
+		c.Check(!trunc && len(seqs) > 0 && len(bad) == 0, rule, FStr(cw), "locks-combined/"+itoa(int(n)), cw.Pos(), "with %d writer(s) every path returns zapcore.Lock(zapcore.NewMultiWriteSyncer(writers...)): one mutex around the whole group (offending: %v)", n, bad)
 	}
 }
 
@@ -348,7 +348,7 @@ func c4OpenReturnsCombined(c *Ctx, rule string) {
 	seqs, trunc := ConcPaths(op, ConcCfg{
 		MaxIter: 2, Cut: &cut,
 		Inline: func(h *ssa.Function) bool {
-			return h != comb && h.String() != "(*go.uber.org/zap.sinkRegistry).newSink" && !(h.Parent() != nil && len(h.Params) == 0 && h.Signature.Results().Len() == 0)
+			return h != comb && FStr(h) != "(*go.uber.org/zap.sinkRegistry).newSink" && !(h.Parent() != nil && len(h.Params) == 0 && h.Signature.Results().Len() == 0)
 		},
 		Fork: func(in ssa.Instruction, st *ConcState) []ConcAlt {
 			x, ok := in.(*ssa.Extract)
@@ -425,5 +425,5 @@ func c4OpenReturnsCombined(c *Ctx, rule string) {
 			bad = append(bad, sq)
 		}
 	}
-	c.Check(!trunc && nOK+nUnknown > 0 && len(bad) == 0, rule, op.String(), "returns-combined", op.Pos(), "on every path without an error (%d paths, up to two destinations; %d longer ones cut) Open returns CombineWriteSyncers of exactly the sinks it opened (%d paths decided, %d build the list in a way that is not followed; offending: %v)", len(seqs), cut, nOK, nUnknown, bad)
+	c.Check(!trunc && nOK+nUnknown > 0 && len(bad) == 0, rule, FStr(op), "returns-combined", op.Pos(), "on every path without an error (%d paths, up to two destinations; %d longer ones cut) Open returns CombineWriteSyncers of exactly the sinks it opened (%d paths decided, %d build the list in a way that is not followed; offending: %v)", len(seqs), cut, nOK, nUnknown, bad)
 }
